@@ -30,7 +30,7 @@ from .sched import (CaseTimeout, HarnessError, InvalidCase, Sched, Violation,
 VERIF = os.path.dirname(os.path.dirname(os.path.abspath(__file__)))
 REPLAY_DIR = os.path.join(VERIF, "replays")
 EVID_DIR = os.path.join(VERIF, "evidence")
-KNOWN_FILE = os.path.join(VERIF, "known_findings.json")
+KNOWN_FILE = os.environ.get("VERIF_KNOWN_FILE") or os.path.join(VERIF, "known_findings.json")
 
 
 def load_prop(pid):
